@@ -129,6 +129,87 @@ eng_desc(void)
                                 g_job_done = NULL;
                                 cov_hit("C14", "%s|reuse|%s|%s", variant_name(mmb->variant), cipher_name(IT->cipher), hash_name(IT->hash));
                         }
+                /* ---- failing CUSTOM callbacks: the job must come back with exactly IMB_STATUS_INTERNAL_ERROR, whatever the
+                 * other stage, the chain order, the API or the completion path */
+                if (g_opt.shard == (vi + 3) % g_opt.nshards) {
+                        static const char *other_c[] = { NULL, "aes-cbc-128", "aes-ctr-128", "aes-cfb-128", "docsis-sec-128", "des-cbc" };
+                        static const char *other_h[] = { NULL, "sha1", "hmac-sha256", "hmac-sha512", "aes-cmac", "crc32-eth" };
+                        struct suite ccust = { "custom", IMB_CIPHER_CUSTOM, 16, IMB_AUTH_NULL, 0 };
+                        struct suite hcust = { "custom", IMB_CIPHER_NULL, 0, IMB_AUTH_CUSTOM, 0 };
+                        for (int which = 0; which < 2; which++) /* 0: cipher callback fails, 1: hash callback fails */
+                                for (unsigned o = 0; o < 7; o++)
+                                        for (int order = 1; order <= 2; order++)
+                                                for (int dir = 1; dir <= 2; dir++)
+                                                        for (int api = 0; api < 2; api++) {
+                                                                const struct suite *cs = NULL, *hs = NULL;
+                                                                struct rng r;
+                                                                struct genopt g;
+                                                                rng_seed(&r, g_opt.seed * 77 + o * 13 + (unsigned) order * 5 + (unsigned) dir + (unsigned) which * 101);
+                                                                if (which == 0) {
+                                                                        cs = &ccust;
+                                                                        if (o == 6)
+                                                                                hs = &hcust; /* both custom, cipher fails */
+                                                                        else if (other_h[o])
+                                                                                for (int i = 0; i < g_n_hash_suites; i++)
+                                                                                        if (!strcmp(g_hash_suites[i].name, other_h[o]))
+                                                                                                hs = &g_hash_suites[i];
+                                                                } else {
+                                                                        hs = &hcust;
+                                                                        if (o == 6)
+                                                                                cs = &ccust;
+                                                                        else if (other_c[o])
+                                                                                for (int i = 0; i < g_n_cipher_suites; i++)
+                                                                                        if (!strcmp(g_cipher_suites[i].name, other_c[o]))
+                                                                                                cs = &g_cipher_suites[i];
+                                                                }
+                                                                genopt_default(&g);
+                                                                g.slot = 0;
+                                                                g.pl = PL_PLAIN;
+                                                                g.dir = dir;
+                                                                g.len = 64;
+                                                                g.inplace = 1;
+                                                                item_gen(IT, cs, hs, &r, &g, mmj);
+                                                                IT->order = (IMB_CHAIN_ORDER) order;
+                                                                g_job_done = NULL;
+                                                                g_custom_fail = which ? 2 : 1;
+                                                                IMB_JOB *rj = NULL;
+                                                                if (api == 0) {
+                                                                        IMB_JOB *j = mm_get_next_job(mmj);
+                                                                        item_fill_job(IT, j);
+                                                                        rj = mm_submit_job(mmj, 0, -3);
+                                                                        if (!rj)
+                                                                                rj = mm_flush_job(mmj);
+                                                                } else {
+                                                                        IMB_JOB *bj[1], *fj[2];
+                                                                        if (mm_get_next_burst(mmb, 1, bj) == 1) {
+                                                                                item_fill_job(IT, bj[0]);
+                                                                                mcall("imb_set_session", (void *) imb_set_session, 2, (uint64_t) mmb->m, (uint64_t) bj[0]);
+                                                                                if (mm_submit_burst(mmb, 1, bj, 0, -3) == 1)
+                                                                                        rj = bj[0];
+                                                                                else if (mm_flush_burst(mmb, 2, fj) >= 1)
+                                                                                        rj = fj[0];
+                                                                        }
+                                                                }
+                                                                g_custom_fail = 0;
+                                                                cov_count("custom_failure_jobs", 1);
+                                                                if (!rj || rj->status != IMB_STATUS_INTERNAL_ERROR) {
+                                                                        char key[200], det[240];
+                                                                        snprintf(key, sizeof key, "C14|%s|custom-%s-fails|%s|%s|order%d|status%d", variant_name(mmj->variant),
+                                                                                 which ? "hash" : "cipher", cipher_name(IT->cipher), hash_name(IT->hash), order,
+                                                                                 rj ? (int) rj->status : -1);
+                                                                        snprintf(det, sizeof det,
+                                                                                 "job whose CUSTOM %s callback reported failure came back with status %d instead of "
+                                                                                 "IMB_STATUS_INTERNAL_ERROR (%d) via the %s API",
+                                                                                 which ? "hash" : "cipher", rj ? (int) rj->status : -1, (int) IMB_STATUS_INTERNAL_ERROR,
+                                                                                 api ? "burst" : "job");
+                                                                        ev_violation("C14", key, det, NULL);
+                                                                }
+                                                                while (mm_flush_job(mmj))
+                                                                        ;
+                                                                cov_hit("C14", "%s|custom-fail%d|%s|%s|o%d|api%d", variant_name(mmj->variant), which, cipher_name(IT->cipher),
+                                                                        hash_name(IT->hash), order, api);
+                                                        }
+                }
                 /* ---- manager-less direct functions: error code after failure / success */
                 if (g_opt.shard == vi % g_opt.nshards) {
                         IMB_MGR *m = mmj->m;
